@@ -31,7 +31,15 @@ def ref_pcapng_packets(blob):
 
 
 def _ip_payload(pkt):
-    """IPv4 -> TCP payload (bytes) or None"""
+    """IPv4 / IPv6 -> TCP payload (bytes) or None"""
+    if len(pkt) >= 40 and pkt[0] >> 4 == 6:
+        plen = struct.unpack_from(">H", pkt, 4)[0]
+        body = pkt[40:40 + plen]
+        if pkt[6] == 6:
+            if len(body) < 20:
+                return b""
+            return body[(body[12] >> 4) * 4:]
+        return body
     if len(pkt) < 20 or pkt[0] >> 4 != 4:
         return None
     ihl = (pkt[0] & 0xF) * 4
@@ -54,7 +62,7 @@ def ref_pcapng_payloads(blob):
     for lt, pkt in ref_pcapng_packets(blob):
         if lt == 1 and len(pkt) >= 14:      # Ethernet
             et = struct.unpack_from(">H", pkt, 12)[0]
-            p = _ip_payload(pkt[14:]) if et == 0x0800 else None
+            p = _ip_payload(pkt[14:]) if et in (0x0800, 0x86DD) else None
         else:                               # raw IP (linktype 101 / 228) or anything else
             p = _ip_payload(pkt)
         if p is not None:
@@ -195,8 +203,12 @@ def _opt(code, value):
     return struct.pack("<HH", code, len(value)) + _pad4(value)
 
 
-def _ip_tcp(payload, rng, sport, dport, seq, flags=0x18):
+def _ip_tcp(payload, rng, sport, dport, seq, flags=0x18, v6=False):
     tcp = struct.pack(">HHIIBBHHH", sport, dport, seq & 0xFFFFFFFF, 0, 5 << 4, flags, 65535, 0, 0)
+    if v6:
+        # the simulator reached over ::1
+        lo = b"\x00" * 15 + b"\x01"
+        return struct.pack(">IHBB", 0x60000000, len(tcp) + len(payload), 6, 64) + lo + lo + tcp + payload
     total = 20 + len(tcp) + len(payload)
     ip = struct.pack(">BBHHHBBH4s4s", 0x45, 0, total, rng.randrange(65536), 0x4000, 64, 6, 0,
                      bytes((127, 0, 0, 1)), bytes((127, 0, 0, 1)))
@@ -238,6 +250,7 @@ def write_pcapng(messages, rng, noise=True, ether=None, mixed=None, pad=0):
     two_way = noise and rng.random() < 0.5                  # responses travel the other way (own sequence numbers) or not
     seq_back = rng.randrange(1 << 32)
     clock_steps = noise and rng.random() < 0.25             # the capture clock is stepped back now and then
+    v6 = noise and rng.random() < 0.15                      # localhost resolved to ::1 (Ethernet-framed packets only)
     n_pkt = 0
 
     def packet(payload):
@@ -245,17 +258,19 @@ def write_pcapng(messages, rng, noise=True, ether=None, mixed=None, pad=0):
         back = two_way and n_pkt % 2 == 1
         n_pkt += 1
         if back:
-            pkt = _ip_tcp(payload, rng, 2321, 40000, seq_back, 0x18 if psh else 0x10)
+            mk = lambda six, q=seq_back: _ip_tcp(payload, rng, 2321, 40000, q, 0x18 if psh else 0x10, v6=six)
             seq_back += len(payload)
         else:
-            pkt = _ip_tcp(payload, rng, 40000, 2321, seq, 0x18 if psh else 0x10)
+            mk = lambda six, q=seq: _ip_tcp(payload, rng, 40000, 2321, q, 0x18 if psh else 0x10, v6=six)
             seq += len(payload)
+        pkt = None
         if clock_steps and rng.random() < 0.3:
             ts -= rng.randrange(1, 10 ** 7)
         iface = rng.randrange(2) if mixed else 0
         eth = ether if iface == 0 else not ether
+        pkt = mk(v6 and eth)
         if eth:
-            pkt = b"\x00" * 12 + b"\x08\x00" + pkt
+            pkt = b"\x00" * 12 + (b"\x86\xdd" if v6 else b"\x08\x00") + pkt
         ts += rng.randrange(1, 5000)
         out += _block(6, struct.pack("<IIIII", iface, ts >> 32, ts & 0xFFFFFFFF, len(pkt), len(pkt)) + pkt)
 
